@@ -206,3 +206,18 @@ def version_diff_elements(v1, v2):
                        and (a[i].scale, a[i].ref) != (b[i].scale, b[i].ref) and i // 1000 not in (0, 31)
                        and not a[i].sut_numeric_codeish and not b[i].sut_numeric_codeish and 1 <= a[i].nbits <= 32]
     return _VDIFF[key]
+
+
+_VCHG = {}
+
+
+def version_changed_elements(v1, v2):
+    """numeric elements that both master table versions define, with another width, scale or reference value"""
+    key = (v1, v2)
+    if key not in _VCHG:
+        a, b = pool_for(v1).tables.B, pool_for(v2).tables.B
+        _VCHG[key] = [i for i in sorted(a) if i in b and a[i].kind == 'num' and b[i].kind == 'num'
+                      and (a[i].nbits, a[i].scale, a[i].ref) != (b[i].nbits, b[i].scale, b[i].ref) and i // 1000 not in (0, 31)
+                      and not a[i].sut_numeric_codeish and not b[i].sut_numeric_codeish and 2 <= min(a[i].nbits, b[i].nbits)
+                      and max(a[i].nbits, b[i].nbits) <= 32]
+    return _VCHG[key]
